@@ -9,6 +9,7 @@ still need a Jordan-curve argument and stay validated only.
 -/
 import RegionsVerif.Props.C01Tri
 import Mathlib.Tactic.NormNum
+import Mathlib.Data.List.Rotate
 import Mathlib.Tactic.Positivity
 
 namespace RegionsVerif.Props.C01
@@ -265,6 +266,44 @@ theorem pnpoly_convex_any_start (vs : List (Pt α)) (p : Pt α) (k : Nat) (h3 : 
   have := pnpoly_convex (vs.rotate k) p (by rw [List.length_rotate]; exact h3) hc
   rw [pnpoly_rotate] at this
   exact this
+
+/-! ### convexity does not depend on the start vertex -/
+
+theorem convexCCW_append_singleton (l : List (Pt α)) (a : Pt α) :
+    ConvexCCW (l ++ [a]) ↔ ConvexCCW l ∧ l.Pairwise (fun b c => 0 < orient b c a) := by
+  induction l with
+  | nil => simp [ConvexCCW]
+  | cons x l ih =>
+    simp only [List.cons_append, ConvexCCW, List.pairwise_append, List.pairwise_cons, List.Pairwise.nil,
+      List.mem_singleton, forall_eq, ih, List.not_mem_nil, false_imp_iff, implies_true, and_true]
+    tauto
+
+/-- convexity does not depend on the start vertex. -/
+theorem ConvexCCW.rotate (vs : List (Pt α)) (h : ConvexCCW vs) (k : Nat) : ConvexCCW (vs.rotate k) := by
+  induction k generalizing vs with
+  | zero => simpa using h
+  | succ n ih =>
+    cases vs with
+    | nil => simpa using h
+    | cons a l =>
+      rw [List.rotate_cons_succ]
+      apply ih
+      rw [convexCCW_append_singleton]
+      refine ⟨h.2, h.1.imp (fun {b c} hbc => ?_)⟩
+      rw [orient_cycle]; exact hbc
+
+/-- **Strictly convex polygons, final form**: `true` at every point of the open polygon that avoids
+the diagonals from at least one vertex, `false` at every point off the closed polygon. -/
+theorem pnpoly_convex_final (vs : List (Pt α)) (p : Pt α) (h3 : 3 ≤ vs.length) (hc : ConvexCCW vs) :
+    ((polyInside vs p ∧ ∃ k, offFan (vs.rotate k) p) → pnpoly vs p = true) ∧
+    (polyOutside vs p → pnpoly vs p = false) := by
+  refine ⟨?_, (pnpoly_convex vs p h3 hc).2⟩
+  rintro ⟨hin, k, hoff⟩
+  refine (pnpoly_convex_any_start vs p k h3 (hc.rotate vs k)).1 ⟨?_, hoff⟩
+  intro e he
+  apply hin e
+  rw [cyclicPairs_rotate, List.mem_rotate] at he
+  exact he
 
 /-! ### rigid motions (C15): convex polygons -/
 
